@@ -142,7 +142,7 @@ def calibrate_eos(net, m, wcal=64):
         c.dec_out_proj.bias[eos] -= 60.0
         eng = make_engine(c, m['nsym'])
         x = batch_input({'n': 4, 'w': wcal, 'seed': m['seed'] + 17}, m['H'])
-        _, logits = eng.transcribe_batch(x, is_cached=False)
+        _, logits = sut('transcribe_batch(calibration)', eng.transcribe_batch, x, is_cached=False)
         raw = logits.clone()
         raw[:, :, eos] += 60.0
         others = raw.clone()
@@ -229,6 +229,11 @@ def sut(where, fn, *a, **kw):
         raise
     except Exception as e:  # noqa
         raise SutRaised(where, e)
+
+
+def _calibrate(pristine, m, plan):
+    wcal = 256 if plan['batches'][0].get('via') else min(64, max(bb['w'] for bb in plan['batches']))
+    return calibrate_eos(pristine, m, wcal)
 
 
 def _viol(res, kind, sig, msg, k):
@@ -417,7 +422,17 @@ def execute(plan):
     try:
         with quiet(), torch.no_grad():
             pristine = build_net(m)
-            bias = calibrate_eos(pristine, m, min(64, max(bb['w'] for bb in plan['batches'])) if not plan['batches'][0].get('via') else 256)
+            try:
+                bias = _calibrate(pristine, m, plan)
+            except SutRaised as e:
+                _viol(res, 'termination', 'decode-raised|%s|%s' % (e.where, type(e.exc).__name__), str(e)[:300], -1)
+                res.digest = log.digest()
+                return res
+            except kernel.StepCapExceeded:
+                _viol(res, 'liveness', 'no-termination-within-cap', 'the calibration batch (boundary symbol suppressed) did not stop at the length cap', -1)
+                res.digest = log.digest()
+                return res
+            
             log.add('model', 'built', [m['dim'], m['heads'], m['dec_layers'], m['max_seq_len'], round(bias, 4)])
             transformer.torch = TorchProxy(real_torch, plan['poison'], stats)
             live_net = copy.deepcopy(pristine)
